@@ -132,8 +132,14 @@ def make_history(rng, length, focus=False, partial_points=False):
         v = rng.choice([2, 3, 3, 2, 5])
         es, ps = sx.to_sx(flat[e]), sx.point_sx(pts[p])
         if r < 0.22:
-            ops.append(['at', e, p])
-            model_lines.append('EVAL %s %s' % (ps, es))
+            if len(sx.var_ids(flat[e])) <= 1 and rng.random() < 0.35:
+                # the bare-number form of at() on an expression with at most one variable
+                xn = rng.choice([0, -1, 2, 1.5, -2.5, 0.0, 3, 1, 0.5])
+                ops.append(['atnum', e, sx.num_sx(xn)])
+                model_lines.append('ATNUM %s %s' % (sx.num_sx(xn), es))
+            else:
+                ops.append(['at', e, p])
+                model_lines.append('EVAL %s %s' % (ps, es))
         elif r < 0.28:
             ops.append(['located', e, p])
             model_lines.append('REV %s %s' % (ps, es))
@@ -170,6 +176,12 @@ def make_history(rng, length, focus=False, partial_points=False):
                 if len(ids) > 1:
                     ops.append(['dat', s, p])
                     model_lines.append(None)          # the slot holds no object (constructor rejected)
+                elif rng.random() < 0.3:
+                    # Derivative.at(number)
+                    xn = rng.choice([0, -1, 2, 1.5, -2.5, 0.0, 3, 1, 0.5])
+                    vv = ids[0] if ids else 1
+                    ops.append(['datnum', s, sx.num_sx(xn)])
+                    model_lines.append(('PEARLY' if sl['symbolic'] else 'FWD') + ' %d %s %s' % (vv, sx.point_sx([(vv, xn)]), es))
                 elif rng.random() < 0.7:
                     ops.append(['dat', s, p])
                     vv = ids[0] if ids else 1
@@ -339,6 +351,35 @@ def twin_histories(rng, n):
     return out
 
 
+def twin_children_histories(rng, n):
+    """an n-ary node whose operands include the same composite term written out twice (equal, distinct objects,
+    two or more levels above the variables), asked the same question at a first point, at a second, and at the first
+    again, through every kind of route: whatever deduplicates operands by == treats only one of the twins"""
+    out = []
+    for _ in range(n):
+        def deep():
+            u = gen.rexpr(rng, rng.randint(2, 4), [2, 3], p_const=0.15)
+            return rng.choice([('NthPow', ('NthPow', u, 2), 2), ('Sin', ('Mul', [u, ('C', 2)])), ('Exp', ('Neg', u), E),
+                               ('Mul', [u, u]), ('NthPow', ('Add', [u, ('C', 1)]), 3)])
+        t = deep()
+        kids = [t, t] + [gen.rexpr(rng, rng.randint(1, 3), [2, 3]) for _ in range(rng.randint(0, 2))]
+        rng.shuffle(kids)
+        root = (rng.choice(['Add', 'Mul']), kids)
+        if rng.random() < 0.4:
+            root = rng.choice([('Recip', root), ('Log', root, E), ('NthRoot', root, 2), ('Minus', ('V', 2), root), ('Sin', root)])
+        v = rng.choice([2, 3])
+        pts = [sx.point_sx([(2, rng.choice([1.5, 2, 0.75, 3])), (3, rng.choice([2.5, 1.25, 4, 0.5]))]),
+               sx.point_sx([(3, rng.choice([0, -1, 2, 1])), (2, rng.choice([0, 1, -2.5, -1]))]),
+               sx.point_sx([(2, gen.rnum(rng)), (3, gen.rnum(rng))])]
+        early = rng.randint(0, 1)
+        ops = [['mkpartial', 0, 0, v, 0], ['pat', 0, 0], ['pat', 0, 1], ['pat', 0, 0], ['pat', 0, 2],
+               ['at', 0, 1], ['at', 0, 0], ['located', 0, 1], ['located', 0, 2],
+               ['mkdiff', 1, 0, early], ['dfat', 1, 0], ['dfat', 1, 1], ['dfcompat', 1, v, 2], ['dfcompat', 1, v, 0],
+               ['mkpartial', 2, 0, v, 1], ['pat', 2, 1], ['pat', 2, 0]]
+        out.append({'pool': [ref_sx(root)], 'points': pts, 'ops': ops})
+    return out
+
+
 def model_lines_for(h):
     """the pure-model line of every operation of a history (None for constructions)"""
     flat = []
@@ -394,10 +435,11 @@ def history_correspondence(ctx, rep, n, keep, maxlen=10, what='history', extra=N
         h, ml = make_history(rng, rng.randint(4, maxlen), focus=(tries % 2 == 0), partial_points=partial_points)
         ops, m2 = [], []
         for op, l in zip(h['ops'], ml):
-            if op[0] in keep or op[0].startswith('mk') or op[0] in ('pexpr', 'dexpr'):   # as_expression switches the object's path
+            if op[0] in keep or op[0].startswith('mk') or op[0] in ('pexpr', 'dexpr') \
+                    or (op[0] == 'atnum' and 'at' in keep) or (op[0] == 'datnum' and 'dat' in keep):   # as_expression switches the object's path
                 ops.append(op)
                 m2.append(l)
-            elif op[0] in disturb:
+            elif op[0] in disturb or (op[0] == 'atnum' and 'at' in disturb) or (op[0] == 'datnum' and 'dat' in disturb):
                 ops.append(op)
                 m2.append(None)
         if not any(l is not None for l in m2):
@@ -408,6 +450,19 @@ def history_correspondence(ctx, rep, n, keep, maxlen=10, what='history', extra=N
     for h in (extra or []):
         hs.append(h)
         mls.append(model_lines_for(h))
+    for h in twin_children_histories(rng, max(6, n // 12)):
+        ml = model_lines_for(h)
+        ops, m2 = [], []
+        for op, l in zip(h['ops'], ml):
+            if op[0] in keep or op[0].startswith('mk'):
+                ops.append(op)
+                m2.append(l)
+            elif op[0] in disturb:
+                ops.append(op)
+                m2.append(None)
+        if any(l is not None for l in m2):
+            hs.append(dict(h, ops=ops))
+            mls.append(m2)
     res = run_histories(hs, fresh_oracle=False)
     flat_lines = [l for ml in mls for l in ml if l is not None]
     model = core.run_model(flat_lines)
@@ -523,6 +578,8 @@ def process_state_probe(ctx, rep):
 
 def check_C10(ctx):
     rep = history_check(ctx, 'C10')
+    import props
+    props.augmented_assignments(rep, ctx.rng, sizes(ctx.tier, 60, 600))
     rep.rule = ('the same histories as C09; before and after every operation a structural snapshot (class, parameters, '
                 'identity of children and of the argument list, coordinates) of every pool object, point, derivative object '
                 'and previously returned expression is compared with the snapshot taken at creation; at the end every pool '
@@ -782,6 +839,15 @@ def check_C12(ctx):
             rep.oracle_fail('point equality/hash law broken: %s' % b.impl[x], b, [x])
     rep.stats.update({'pair_' + k: v for k, v in eqs.items()})
     used_roundtrip(rep, [e for e, _f, _g, _w, _i, _j, _x in recs[:sizes(tier, 200, 3000)]], rng)
+    # derivative objects reached by different routes: Differential(e).component(v) against Partial(e, v),
+    # Differential(e).at(p) against LocatedDifferential(e, p), early and late, ==, != and hash
+    import props
+    cases_ = []
+    for e, _f, _g, _w, _i, _j, _x in recs[:sizes(tier, 150, 2500)]:
+        ids = sx.var_ids(e)
+        if ids:
+            cases_.append((e, gen.positive_point(rng, ids) if rng.random() < 0.7 else gen.rpoint(rng, ids), rng.choice(ids)))
+    props.object_equalities(rep, cases_)
     return rep
 
 
@@ -1036,6 +1102,8 @@ def check_C15(ctx):
         rep.distinct.add((sx.to_sx(x), sx.to_sx(y)))
         if b.impl[i] != 'ok':
             rep.oracle_fail('operator result differs from the named constructor: %s' % b.impl[i], b, [i])
+    import props
+    props.augmented_assignments(rep, rng, sizes(tier, 60, 600))
     return rep
 
 
@@ -1112,6 +1180,16 @@ def check_C18(ctx):
             e = gen.twins(rng, pool, rng.randint(2, 6))
             rep.stats['twin_expressions'] += 1
             lines += ['DEXPR %d %s' % (w, sx.to_sx(e)) for w in sx.var_ids(e)]
+        elif rng.random() < 0.15:
+            # a pair of whole expressions that are == but spelled differently, or unequal with equal hashes: every symbolic
+            # answer of both, in this order in this process and in the opposite order in the reverse-order process
+            e = gen.rexpr(rng, rng.randint(3, 9), pool, p_const=0.45)
+            t = gen.respell(e) if rng.random() < 0.6 else gen.hash_collision_variant(e)
+            if t is not None and sx.to_sx(t) != sx.to_sx(e) and sx.var_ids(e):
+                for w in sx.var_ids(e)[:2]:
+                    for ee in (e, t):
+                        lines += ['PEXPR %d %s' % (w, sx.to_sx(ee)), 'DEXPR %d %s' % (w, sx.to_sx(ee)), 'NORM %s' % sx.to_sx(ee)]
+                rep.stats['equal_or_colliding_pairs'] += 1
         elif rng.random() < 0.2:
             # repeated operands and contributions whose floating-point sum is order-sensitive
             e = gen.order_sensitive_sum(rng, pool)
